@@ -9,7 +9,7 @@ BATCH = 4
 TIMEOUT = {'quick': 900, 'thorough': 3000}
 BOUNDS = dict(Gaussian_FJC='chain lengths N = 2..12 (quick), 2..32 (thorough); k a 2-element symbolic array, k>0; sigma / l > 0', GaussianRing='N = 2..8', DiscreteKoyama='constructor guards with symbolic sigma, l, lp; pair sum for N = 3..8 on 3 concrete valid parameter sets with symbolic k',
               trivial='SingleSite, NoIntra, InterMolecular on a symbolic k array', NFJC='evaluates without raising; no denominator of the real calculate can vanish for k>0 on the 999-node quadrature')
-OUTSIDE = ['N > 32 (an unbounded-N proof needs induction); the numerical value of the NFJC quadrature; Koyama\'s moment formulas (kernel_base) are used as the definition of the per-pair kernel, not re-derived',
+OUTSIDE = ['call histories on one NFJC object (two symbolic evaluations of the 999-node quadrature exceed the budget: 8 min and an undecided reachability witness), so a result cache in NFJC is not covered', 'N > 32 (an unbounded-N proof needs induction); the numerical value of the NFJC quadrature; Koyama\'s moment formulas (kernel_base) are used as the definition of the per-pair kernel, not re-derived',
            'floating-point cancellation of the closed forms at very small k (Real model here)', 'the limits k->0 / k->inf themselves: proven is the polynomial identity with the pair sum, whose value is N at E=1 and 1 at E=0 (continuity is the pen-and-paper step)']
 ASSUMPTIONS = ['E = exp(-k^2 sigma^2/6) resp. sin(kl)/(kl) is an Ackermann variable with exp(t)<1 for t<0, |sin|<=1, sin t < t for t>0', 'DiscreteKoyama: the bending-energy root solve is concrete (scipy); paths with symbolic parameters end after the constructor guards']
 
@@ -96,6 +96,16 @@ def closed_form(E, model, N):
     else:
         one = om.calculate(_np.array([k[0]]))
         E.claim('value-at-k0-independent-of-k1', E.eq(one[0], val[0]))
+    # history: the same object evaluated again on another array sharing the first wavenumber (no cached result)
+    k2 = _np.empty(2, dtype=k.dtype); k2[0] = k[0]; k2[1] = E.real('k_other', pos=True, default=1.9)
+    first0 = val[0]
+    val2 = om.calculate(k2)
+    E.claim_eq('second-call:same-k-same-value', val2[0], first0)
+    E2 = E.exp(-(k2[1] * k2[1] * s * s) / 6.0) if model == 'Gaussian' else E.sin(k2[1] * s) / (k2[1] * s)
+    pw = [E.const(1.0)]
+    for n in range(1, N):
+        pw.append(pw[-1] * E2)
+    E.claim_eq('second-call:new-k-new-value', val2[1], pair_sum(N, lambda n: pw[n]))
     E.claim('canary', E.eq(val[0], pair_sum(N, lambda n: E.const(1.0))), canary=True)
 
 
@@ -169,6 +179,38 @@ def nfjc(E, N):
         E.claim_no_singularity('no-singular-denominator-for-k>0', since=nside)
     else:
         E.claim_true('finite', bool(_np.all(_np.isfinite(_np.asarray(val, dtype=float)))))
+
+
+def nfjc_history(E, N):
+    """the same NFJC object evaluated on two arrays of equal length sharing their first wavenumber: the second result is
+    that of the second array (symbolic: it mentions the new wavenumber and not the old one; replay: equals a fresh object)"""
+    import warnings
+    k1 = E.arr('k', 2, pos=True, default=0.35)
+    if not E.sym and 'k_1' not in E.values:
+        k1[1] = 2.3
+    k2 = _np.empty(2, dtype=k1.dtype); k2[0] = k1[0]; k2[1] = E.real('k_other', pos=True, default=5.7)
+    with warnings.catch_warnings():
+        warnings.simplefilter('ignore')
+        om = pyPRISM.omega.NonOverlappingFreelyJointedChain(length=N, l=1.0)
+        a = om.calculate(k1); a = [a[0], a[1]]
+        b = om.calculate(k2)
+        if not E.sym:
+            fresh = pyPRISM.omega.NonOverlappingFreelyJointedChain(length=N, l=1.0).calculate(k2)
+    E.reachable('nfjc-history')
+    E.claim_eq('same-k-same-value', b[0], a[0])
+    if E.sym:
+        def deep_vars(sr):
+            vs = _vars(sr.n) | _vars(sr.d)
+            for nm in E.ctx.uf:
+                for arg, v in E.ctx.uf[nm]:
+                    if str(v.n) in vs:
+                        vs |= _vars(arg.n) | _vars(arg.d)
+            return vs
+        vb = deep_vars(SR.lift(b[1]))
+        E.claim_true('second-array-value-is-a-function-of-the-new-k-only', 'k_other' in vb and 'k_1' not in vb)
+    else:
+        E.claim('second-array-as-on-a-fresh-object[0]', E.eq(b[0], fresh[0]))
+        E.claim('second-array-value-is-a-function-of-the-new-k-only', E.eq(b[1], fresh[1]))
 
 
 def aliases(E):
